@@ -70,13 +70,15 @@ pub fn rec_serde(a: &Args, out: &mut Out) {
     // text at and around the capacities
     for k in 0..40usize {
         let n = [0usize, 1, 15, 30, 31, 31, 31, 8][k % 8];
-        let style = k % 5;
+        let style = k % 7;
         let s: String = (0..n)
             .map(|i| match style {
                 0 => char::from_u32(0xC0 + ((i * 7 + k) % 0x3F) as u32).unwrap(), // Latin-1 high half
                 1 => (b'a' + (i % 26) as u8) as char,
                 2 => ['é', 'ÿ', '\u{a4}', '\u{80}', 'A'][(i + k) % 5],
                 3 => '\u{ff}',
+                5 => if i % 2 == 0 { char::from_u32(0xC2 + ((i + k) % 30) as u32).unwrap() } else { char::from_u32(0x80 + ((i * 5 + k) % 64) as u32).unwrap() },
+                6 => if (i + k) % 4 == 0 { '\u{0}' } else { (b'a' + (i % 26) as u8) as char },
                 _ => ['\u{100}', '漢', '\u{0}', 'x'][(i + k) % 4],
             })
             .collect();
